@@ -96,6 +96,17 @@ def run(ctx):
     extra = [s + rng.choice(["+x", "+1", "+0.a", "+b-1"]) for s in rng.sample(sub, 300)]
     strs, bad = cmpcommon.all_pairs(ctx, "semver", sub + extra, key, "small_universe")
     large = random_large(rng, 5000 if quick else 14000) + boundary_families()
+    # numeric identifiers beyond u64: zerv may refuse them (then they are not versions and are left out), but whatever it
+    # accepts as a version must obey the precedence rules
+    big = []
+    for n in (2 ** 64, 2 ** 64 + 1, 10 ** 20 - 1, 10 ** 20, 10 ** 21 + 7, 10 ** 30):
+        big += ["1.0.0-%d" % n, "1.0.0-rc.%d" % n, "1.0.0-%d.1" % n]
+    pr0 = core.Probe(ctx.bins)
+    rep0 = pr0.call(dict(op="parse_bulk", fmt="semver", strings=big))
+    pr0.close()
+    accepted_big = [s_ for s_, bit in zip(big, rep0.get("bits", "")) if bit == "1"]
+    ctx.count("beyond_u64_versions_accepted_by_zerv", len(accepted_big))
+    large += accepted_big
     strs2, bad2 = cmpcommon.all_pairs(ctx, "semver", large, key, "random_large")
     for strs_, bad_ in ((strs, bad), (strs2, bad2)):
         for sig, why, i, j, cell in bad_:
